@@ -876,6 +876,62 @@ def r11(k: Kit) -> None:
                   'hits `assert self._transport is not None` and the '
                   'AssertionError escapes to the event loop', f.loc(f.node))
 
+
+# ------------------------------------------------------------------ R13
+
+def r13(k: Kit) -> None:
+    rep = k.rep
+    idx = k.idx
+    rep.rule('C10.R13', 'byte-count driven parsers (`while '
+             'self._recv_handler:` in the X11 and SOCKS forwarders): every '
+             'handler that can be installed moves the parser on along every '
+             'normal path - it stores another handler or None, or calls a '
+             'method that always clears the handler.  A handler left '
+             'installed with a peer-chosen length of zero is dispatched '
+             'again on the same input without end')
+    total = 0
+    for cq in ('x11.SSHX11ClientForwarder', 'socks.SSHSOCKSForwarder'):
+        cls = idx.cls(cq)
+        handlers = set()
+        for f in cls.methods.values():
+            for n, v in k.stores_to(f, 'self._recv_handler'):
+                d = dotted(v) if v is not None else None
+                if d and d.startswith('self.') and d[5:] in cls.methods:
+                    handlers.add(d[5:])
+        clearing = set()
+        for f in cls.methods.values():
+            if f.name in handlers or f.name == '__init__':
+                continue
+            g = k.cfg(f)
+            clears = [n.id for n, v in k.stores_to(f, 'self._recv_handler')
+                      if isinstance(v, ast.Constant) and v.value is None]
+            if clears and g.must_pass(clears, follow_exc=False) is None:
+                clearing.add(f.name)
+        for h in sorted(handlers):
+            f = cls.methods[h]
+            total += 1
+            g = k.cfg(f)
+            moves = [n.id for n, v in k.stores_to(f, 'self._recv_handler')
+                     if not (v is not None and dotted(v) == 'self.' + h)]
+            for n in g.nodes:
+                for c in g.calls_at(n):
+                    if isinstance(c.func, ast.Attribute) and \
+                            dotted(c.func.value) == 'self' and \
+                            c.func.attr in clearing:
+                        moves.append(n.id)
+            w = g.must_pass(moves)
+            rep.check(w is None, 'C10.R13', key(f, 'handler moves the parser on'),
+                      'every normal path installs another handler, None, or '
+                      f'calls one of {sorted(clearing)}',
+                      f'{f.qual} can return with itself still installed as '
+                      '_recv_handler: with a zero byte count from the peer '
+                      '(e.g. an X11 setup block with an empty cookie) '
+                      'data_received dispatches it again and again without '
+                      'consuming input - the event loop never gets control '
+                      'back', f.loc(f.node),
+                      g.describe_path(w) if w else None)
+    rep.floor('C10.R13', 'installable parser handlers', total, 13)
+
 # ------------------------------------------------------------------ R12
 
 def r12(k: Kit) -> None:
@@ -954,3 +1010,10 @@ def run(idx, rep, tier):
     r10(k)
     r11(k)
     r12(k)
+    r13(k)
+    from .c12 import copy_loop_progress
+    rep.rule('C10.R14', 'copy-data: the server\'s copy loop reaches its '
+             'test again only after a read that returned data (= clause of '
+             'C12.R9): a peer-chosen length beyond end of file cannot make '
+             'it spin')
+    copy_loop_progress(k, 'C10.R14')
